@@ -79,7 +79,7 @@ pub fn plan_for(prop: &str, tier: &str) -> Plan {
             p.scenarios = if q {
                 sc(&[("fig8-back", 0), ("fig8-back", 1), ("fig8", 1), ("fig8-div", 2), ("repl", 1), ("repl-div", 1), ("repl-mix", 1), ("repl-lazy3-sz", 0), ("crash3", 1), ("fig8-back-t4", 0), ("repl-batch", 1)])
             } else {
-                sc(&[("fig8-back", 0), ("fig8-back", 1), ("fig8", 1), ("fig8-div", 2), ("repl", 1), ("repl-div", 1), ("repl-mix", 1), ("repl-lazy3-sz", 0), ("crash3", 1), ("fig8-back-t4", 0), ("repl-batch", 1), ("repl-div", 2), ("repl-mix", 3), ("fig8-div", 3), ("fig8-back", 2), ("repl", 2), ("crash3", 2), ("fig8", 2), ("repl-batch", 2)])
+                sc(&[("fig8-back", 0), ("fig8-back", 1), ("fig8", 1), ("fig8-div", 2), ("repl", 1), ("repl-div", 1), ("repl-mix", 1), ("repl-lazy3-sz", 0), ("crash3", 1), ("fig8-back-t4", 0), ("repl-batch", 1), ("repl-div", 2), ("repl-mix", 3), ("fig8-div", 3), ("fig8-back", 2), ("repl", 2), ("crash3", 2), ("fig8", 2), ("repl-batch", 2), ("stale-lazy-gbatch", 1)])
             };
             p.required_stats = vec![Stat::Truncations, Stat::CommitAdvances];
             p.explanation = "explicit-state exploration; pairwise log matching over all live nodes (stable + unstable entries) after every API call; leader append-only and committed-prefix immutability as pre/post relations of every call".into();
@@ -133,9 +133,9 @@ pub fn plan_for(prop: &str, tier: &str) -> Plan {
         }
         "C13" => {
             p.scenarios = if q {
-                sc(&[("flow", 0), ("flow-cap", 0), ("repl-i1-sz", 1), ("repl", 1), ("repl-div", 1), ("repl-mix", 1), ("repl-batch-probe", 0), ("repl-grown", 0), ("flow-elect-inh2", 1), ("flow-p3", 0), ("snap-unr", 0), ("snap-unr", 1), ("snap", 1), ("flow-elect-inherit", 0), ("repl-batch", 1), ("flow-elect", 0), ("fig8-back-t4", 0), ("flow", 1)])
+                sc(&[("flow", 0), ("flow-cap", 0), ("repl-i1-sz", 1), ("repl", 1), ("repl-div", 1), ("repl-mix", 1), ("repl-batch-probe", 0), ("repl-grown", 0), ("flow-elect-inh2", 1), ("flow-p3", 0), ("stale-lazy-gbatch", 0), ("snap-unr", 0), ("snap-unr", 1), ("snap", 1), ("flow-elect-inherit", 0), ("repl-batch", 1), ("flow-elect", 0), ("fig8-back-t4", 0), ("flow", 1)])
             } else {
-                sc(&[("flow", 0), ("flow-cap", 0), ("repl-i1-sz", 1), ("repl", 1), ("repl-div", 1), ("repl-mix", 1), ("repl-batch-probe", 0), ("repl-grown", 0), ("flow-elect-inh2", 1), ("flow-p3", 0), ("snap-unr", 0), ("snap-unr", 1), ("snap", 1), ("flow-elect-inherit", 0), ("repl-batch", 1), ("flow-elect", 0), ("fig8-back-t4", 0), ("flow", 1), ("flow-div", 1), ("flow-batch", 1), ("repl-fetch", 1), ("flow-cap", 1), ("repl-mix", 3), ("repl", 2), ("flow", 2), ("repl-batch", 2)])
+                sc(&[("flow", 0), ("flow-cap", 0), ("repl-i1-sz", 1), ("repl", 1), ("repl-div", 1), ("repl-mix", 1), ("repl-batch-probe", 0), ("repl-grown", 0), ("flow-elect-inh2", 1), ("flow-p3", 0), ("stale-lazy-gbatch", 0), ("snap-unr", 0), ("snap-unr", 1), ("snap", 1), ("flow-elect-inherit", 0), ("repl-batch", 1), ("flow-elect", 0), ("fig8-back-t4", 0), ("flow", 1), ("flow-div", 1), ("flow-batch", 1), ("repl-fetch", 1), ("flow-cap", 1), ("repl-mix", 3), ("repl", 2), ("flow", 2), ("repl-batch", 2), ("stale-lazy-gbatch", 1)])
             };
             p.required_stats = vec![Stat::AppendsChecked, Stat::HeartbeatsChecked, Stat::WindowFull, Stat::ProbePaused, Stat::ProposalsAccepted, Stat::ProposalsRefused];
             p.explanation = "explicit-state exploration over all ack/reject/heartbeat-response orders incl. stale, duplicated and reordered ones and runtime window resizing; reference window model per (leader, follower) driven by generated and delivered messages; every generated MsgAppend / MsgHeartbeat checked for well-formedness against the leader's own log; ghost of uncommitted payload bytes".into();
